@@ -4,6 +4,7 @@
 import SPProofs.Card.Fresh
 
 namespace SPModel
+open Builder Card
 
 /-- An item mentions only variables `1..m`. -/
 def Item.ClosedAt (m : Nat) (it : Item) : Prop :=
